@@ -646,19 +646,36 @@ impl ArrayImpl {
     /// Returns the sum of values.
     ///
     /// NULL items are skipped (their raw slots may hold arbitrary values); the sum of no values is NULL.
-    pub fn sum(&self) -> DataValue {
+    pub fn sum(&self) -> std::result::Result<DataValue, ConvertError> {
         if self.get_valid_bitmap().count_ones() == 0 {
-            return DataValue::Null;
+            return Ok(DataValue::Null);
         }
-        match self {
-            Self::Int16(a) => DataValue::Int16(a.iter().flatten().sum()),
-            Self::Int32(a) => DataValue::Int32(a.iter().flatten().sum()),
-            Self::Int64(a) => DataValue::Int64(a.iter().flatten().sum()),
+        let overflow = || ConvertError::OutOfRange("sum");
+        Ok(match self {
+            Self::Int16(a) => DataValue::Int16(
+                (a.iter().flatten())
+                    .try_fold(0i16, |s, v| s.checked_add(*v))
+                    .ok_or_else(overflow)?,
+            ),
+            Self::Int32(a) => DataValue::Int32(
+                (a.iter().flatten())
+                    .try_fold(0i32, |s, v| s.checked_add(*v))
+                    .ok_or_else(overflow)?,
+            ),
+            Self::Int64(a) => DataValue::Int64(
+                (a.iter().flatten())
+                    .try_fold(0i64, |s, v| s.checked_add(*v))
+                    .ok_or_else(overflow)?,
+            ),
             Self::Float64(a) => DataValue::Float64(a.iter().flatten().sum()),
-            Self::Decimal(a) => DataValue::Decimal(a.iter().flatten().sum()),
+            Self::Decimal(a) => DataValue::Decimal(
+                (a.iter().flatten())
+                    .try_fold(Decimal::ZERO, |s, v| s.checked_add(*v))
+                    .ok_or_else(overflow)?,
+            ),
             Self::Interval(a) => DataValue::Interval(a.iter().flatten().sum()),
             _ => panic!("can not sum array"),
-        }
+        })
     }
 
     /// Returns the number of non-null values.
